@@ -645,12 +645,157 @@ def r4_restorable(ctx, mod):
             ctx.check(targets.count(needed) == 1, 'R4', 'patched:' + needed + tag, mod, stm,
                       "%s is borrowed through %d tracked patch(es) instead of one" % (needed, targets.count(needed)),
                       "student code observes/changes the real %s" % needed)
+        # unittest.mock's patch objects are not re-entrant: started a second time while active, the object saves the
+        # mock as "the original", and the inner stop() deletes what the outer stop() needs. Every execution builds its
+        # own.
+        shared = [a for a in ob['started_nested'] if any(a is b for b in started)]
+        ctx.check(ob['raised_nested'] is None and not shared, 'R4', 'patches-are-per-execution' + tag, mod, stm,
+                  "an execution that starts while another is active hands _start_patches %s the outer execution already "
+                  "started" % ('the same patch object(s) %s' % [a.attrs.get('target') for a in shared] if shared
+                               else '(raises %s)' % getattr(ob['raised_nested'], 'kind', '?')),
+                  "an instructor's input function that calls the student again while call('play') waits in input(): "
+                  "the outer _stop_patches raises AttributeError and time.sleep stays a MagicMock for good")
     import_ok = ctx.repo.module(SANDBOX)
     patch_b = Symbols(ctx.repo).lookup(SANDBOX, 'patch')
     ctx.check(patch_b is not None and patch_b.kind == 'importfrom' and patch_b.target == 'unittest.mock',
               'R4', 'patch-is-unittest.mock', mod, stm, "`patch` is not unittest.mock.patch",
               "restoration is no longer guaranteed by unittest.mock")
     global_write_sweep(ctx, 'R4')
+
+
+def _t_issubclass(c, t):
+    ts = t if isinstance(t, tuple) else (t,)
+    for x in ts:
+        if isinstance(c, str) or isinstance(x, str):
+            # pedal's tracer module binds the name BdbQuit (bdb's class, or its own stand-in): the marker 'BdbQuit'
+            if isinstance(c, str) and isinstance(x, str) and (c == x or c == x + '-subclass'):
+                return True
+            if isinstance(c, str) and isinstance(x, type) and issubclass(Exception, x):
+                return True     # bdb.BdbQuit derives Exception
+            continue
+        if isinstance(c, type) and isinstance(x, type) and issubclass(c, x):
+            return True
+    return False
+
+
+def _t_isinstance(o, t):
+    from ..fdeval import Obj
+    if isinstance(o, Obj) and '__cls__' in o.attrs:
+        return _t_issubclass(o.attrs['__cls__'], t)
+    ts = t if isinstance(t, tuple) else (t,)
+    if isinstance(o, (str, type)) or isinstance(o, Obj):
+        return False       # a class (or a model object of no known class) is an instance of none of them
+    return isinstance(o, tuple(x for x in ts if isinstance(x, type)))
+
+
+def tracer_drive(ctx, sym, cls_name, seq, exc_kind=ValueError):
+    """A tracer's __enter__/__exit__ executed abstractly over a sequence of E(nter), X (exit, no exception) and Y (exit,
+    left by a student exception of class `exc_kind` - a builtin class, or the marker 'BdbQuit' / 'BdbQuit-subclass').
+    Returns a dict: restored, inside_ok, trace, exits (the values __exit__ returned), sets."""
+    tmod = ctx.repo.module(TRACER)
+    ci = sym.find_class(TRACER, str(cls_name))
+    enter = sym.method(ci, '__enter__')
+    exit_ = sym.method(ci, '__exit__')
+    efn, xfn = enter[1], exit_[1]
+    sets = [c for c in calls(efn) if call_name(c) == 'sys.settrace'] or \
+        [c for c in calls(efn) if (call_name(c) or '').startswith('coverage.')]
+    exits = []
+    # __enter__/__exit__ executed abstractly against a model of sys.gettrace/sys.settrace, entered once and
+    # entered again while active (student code importing another submission file re-enters the same tracer)
+    from .. import symexec
+    from ..fdeval import Obj, Raised as _Raised, Inconclusive
+    original = symexec.marker('the-trace-function-installed-before')
+    original_reader = symexec.marker('coverage.python.get_python_source')
+    cell = {'trace': original, 'reader': original_reader}
+    collectors = []
+
+    # a model of the coverage package: started Coverage objects form a stack; stop() uninstalls the object's
+    # tracer and resumes the one below (or leaves no trace function); stopping twice is a no-op
+    def new_coverage(*a, **k):
+        cov = Obj('Coverage')
+
+        def start():
+            collectors.append(cov)
+            cell['trace'] = cov
+
+        def stop():
+            if cov in collectors:
+                collectors.remove(cov)
+                cell['trace'] = collectors[-1] if collectors else None
+        symexec.method(cov, 'start', start)
+        symexec.method(cov, 'stop', stop)
+        symexec.method(cov, 'save', lambda *a, **k: None)
+        numbers = Obj('numbers', n_missing=0, n_statements=1, pc_covered=100.0)
+        symexec.method(cov, '_analyze', lambda *a, **k: Obj('analysis', numbers=numbers, missing=set(),
+                                                            statements=set()))
+        return cov
+
+    # ... and of unittest.mock.patch on coverage's source reader
+    def new_patch(target=None, new=None, *a, **k):
+        pt = Obj('patch', target=target)
+        state = {}
+
+        def p_start():
+            state['saved'] = cell['reader']
+            cell['reader'] = new
+
+        def p_stop():
+            if 'saved' in state:
+                cell['reader'] = state.pop('saved')
+        symexec.method(pt, 'start', p_start)
+        symexec.method(pt, 'stop', p_stop)
+        return pt
+    me = symexec.self_obj(tmod, str(cls_name), filename='answer.py', code='x = 1')
+    symexec.method(me, 'reset', lambda *a, **k: None)
+    # the methods of the stdlib base class bdb.Bdb that touch the trace function (CPython's own definitions):
+    # set_quit() and set_continue() without breakpoints end with sys.settrace(None)
+    if sym.method(ci, 'set_quit') is None:
+        symexec.method(me, 'set_quit', lambda: (me.attrs.__setitem__('quitting', True),
+                                                cell.__setitem__('trace', None))[0])
+    if sym.method(ci, 'set_continue') is None:
+        symexec.method(me, 'set_continue', lambda: cell.__setitem__('trace', None))
+    if sym.method(ci, 'set_trace') is None:
+        symexec.method(me, 'set_trace', lambda *a: cell.__setitem__('trace', me))
+    sup = Obj('super')
+    symexec.method(sup, '__init__', lambda *a, **k: None)
+    fd = symexec.new_fd(sym, tmod, calls={
+        'sys.gettrace': lambda: cell['trace'],
+        'sys.settrace': lambda f: cell.__setitem__('trace', f),
+        'coverage.Coverage': new_coverage, 'patch': new_patch,
+        'sys._getframe': lambda *a: Obj('frame', f_trace=None, __open__=True),
+        'super': lambda *a: sup, 'isinstance': _t_isinstance, 'issubclass': _t_issubclass},
+        extra={'BdbQuit': 'BdbQuit', 'coverage.python.get_python_source': original_reader,
+               'coverage': Obj('coverage-module', __open__=True)})
+    fd.resolver = (lambda inner: (lambda n: cell['reader'] if n == 'coverage.python.get_python_source'
+                                  else inner(n)))(fd.resolver)
+    init = sym.method(ci, '__init__')
+    try:
+        if init is not None:
+            fd.call_function(init[1], [], bound_self=me)
+        depth = 0
+        inside_ok = True
+        for step in seq:
+            if step == 'E':
+                fd.call_function(efn, [], bound_self=me)
+                depth += 1
+            else:
+                exits.append(fd.call_function(
+                    xfn, [None, None, None] if step == 'X' else
+                    [exc_kind, Obj('student-exception', exc_kind=exc_kind if isinstance(exc_kind, str)
+                                   else exc_kind.__name__, __cls__=exc_kind), Obj('traceback')],
+                    bound_self=me))
+                depth -= 1
+                if depth > 0 and sets and cell['trace'] is original:
+                    inside_ok = False   # the outer execution is still running: it must still be traced
+        restored = cell['trace'] is original and cell['reader'] is original_reader
+        if cell['trace'] is original and cell['reader'] is not original_reader:
+            cell['trace'] = 'restored, but coverage.python.get_python_source is still patched'
+    except _Raised as e:
+        restored, inside_ok = False, True
+        cell['trace'] = 'raises %s' % e.kind
+    except Inconclusive as e:
+        raise AnalysisError("C05 R5: tracer %s outside the decidable fragment: %s" % (cls_name, e))
+    return dict(restored=restored, inside_ok=inside_ok, trace=cell['trace'], exits=exits, sets=sets)
 
 
 def r5_tracers(ctx, sym):
@@ -677,102 +822,11 @@ def r5_tracers(ctx, sym):
         ctx.analysed_function(exit_[0].module, xfn)
         sets = [c for c in calls(efn) if call_name(c) == 'sys.settrace'] or \
             [c for c in calls(efn) if (call_name(c) or '').startswith('coverage.')]
-        # __enter__/__exit__ executed abstractly against a model of sys.gettrace/sys.settrace, entered once and
-        # entered again while active (student code importing another submission file re-enters the same tracer)
-        from .. import symexec
-        from ..fdeval import Obj, Raised as _Raised, Inconclusive
         for seq_name, seq in (('single', 'EX'), ('re-entered', 'EEXX'), ('re-entered-twice', 'EEEXXX'),
                               ('sequential', 'EXEX'), ('left-by-an-exception', 'EY'),
                               ('re-entered-inner-left-by-an-exception', 'EEYX')):
-            original = symexec.marker('the-trace-function-installed-before')
-            original_reader = symexec.marker('coverage.python.get_python_source')
-            cell = {'trace': original, 'reader': original_reader}
-            collectors = []
-
-            # a model of the coverage package: started Coverage objects form a stack; stop() uninstalls the object's
-            # tracer and resumes the one below (or leaves no trace function); stopping twice is a no-op
-            def new_coverage(*a, **k):
-                cov = Obj('Coverage')
-
-                def start():
-                    collectors.append(cov)
-                    cell['trace'] = cov
-
-                def stop():
-                    if cov in collectors:
-                        collectors.remove(cov)
-                        cell['trace'] = collectors[-1] if collectors else None
-                symexec.method(cov, 'start', start)
-                symexec.method(cov, 'stop', stop)
-                symexec.method(cov, 'save', lambda *a, **k: None)
-                numbers = Obj('numbers', n_missing=0, n_statements=1, pc_covered=100.0)
-                symexec.method(cov, '_analyze', lambda *a, **k: Obj('analysis', numbers=numbers, missing=set(),
-                                                                    statements=set()))
-                return cov
-
-            # ... and of unittest.mock.patch on coverage's source reader
-            def new_patch(target=None, new=None, *a, **k):
-                pt = Obj('patch', target=target)
-                state = {}
-
-                def p_start():
-                    state['saved'] = cell['reader']
-                    cell['reader'] = new
-
-                def p_stop():
-                    if 'saved' in state:
-                        cell['reader'] = state.pop('saved')
-                symexec.method(pt, 'start', p_start)
-                symexec.method(pt, 'stop', p_stop)
-                return pt
-            me = symexec.self_obj(tmod, str(cls_name), filename='answer.py', code='x = 1')
-            symexec.method(me, 'reset', lambda *a, **k: None)
-            # the methods of the stdlib base class bdb.Bdb that touch the trace function (CPython's own definitions):
-            # set_quit() and set_continue() without breakpoints end with sys.settrace(None)
-            if sym.method(ci, 'set_quit') is None:
-                symexec.method(me, 'set_quit', lambda: (me.attrs.__setitem__('quitting', True),
-                                                        cell.__setitem__('trace', None))[0])
-            if sym.method(ci, 'set_continue') is None:
-                symexec.method(me, 'set_continue', lambda: cell.__setitem__('trace', None))
-            if sym.method(ci, 'set_trace') is None:
-                symexec.method(me, 'set_trace', lambda *a: cell.__setitem__('trace', me))
-            sup = Obj('super')
-            symexec.method(sup, '__init__', lambda *a, **k: None)
-            fd = symexec.new_fd(sym, tmod, calls={
-                'sys.gettrace': lambda: cell['trace'],
-                'sys.settrace': lambda f: cell.__setitem__('trace', f),
-                'coverage.Coverage': new_coverage, 'patch': new_patch,
-                'sys._getframe': lambda *a: Obj('frame', f_trace=None, __open__=True),
-                'super': lambda *a: sup, 'isinstance': lambda o, t: False},
-                extra={'BdbQuit': 'BdbQuit', 'coverage.python.get_python_source': original_reader,
-                       'coverage': Obj('coverage-module', __open__=True)})
-            fd.resolver = (lambda inner: (lambda n: cell['reader'] if n == 'coverage.python.get_python_source'
-                                          else inner(n)))(fd.resolver)
-            init = sym.method(ci, '__init__')
-            try:
-                if init is not None:
-                    fd.call_function(init[1], [], bound_self=me)
-                depth = 0
-                inside_ok = True
-                for step in seq:
-                    if step == 'E':
-                        fd.call_function(efn, [], bound_self=me)
-                        depth += 1
-                    else:
-                        fd.call_function(xfn, [None, None, None] if step == 'X' else
-                                         [ValueError, Obj('student-exception', exc_kind='ValueError'), Obj('traceback')],
-                                         bound_self=me)
-                        depth -= 1
-                        if depth > 0 and sets and cell['trace'] is original:
-                            inside_ok = False   # the outer execution is still running: it must still be traced
-                restored = cell['trace'] is original and cell['reader'] is original_reader
-                if cell['trace'] is original and cell['reader'] is not original_reader:
-                    cell['trace'] = 'restored, but coverage.python.get_python_source is still patched'
-            except _Raised as e:
-                restored, inside_ok = False, True
-                cell['trace'] = 'raises %s' % e.kind
-            except Inconclusive as e:
-                raise AnalysisError("C05 R5: tracer %s outside the decidable fragment: %s" % (cls_name, e))
+            res = tracer_drive(ctx, sym, cls_name, seq)
+            restored, cell = res['restored'], {'trace': res['trace']}
             ctx.check(restored, 'R5', key + ':' + seq_name, enter[0].module, xfn,
                       "after the tracer was %s (%s) sys.gettrace() is %r, not the function that was installed before" % (
                           seq_name, seq, cell['trace']),
